@@ -41,12 +41,14 @@ structure Running where
   reason : Bool
   ctxSkip : Bool                 -- skipped because the context said so (to be justified at finish)
   kept : List Td
+  altKept : List (List Td × Insts)  -- other values (with the instance state that goes with them) `teardown_funcs` may have when read (setup task still running: interrupt path)
   instsAtStart : Insts
   out : TaskOut
   consumed : List Item           -- newest first
   expected : List Item
   roles : List (Nat × Nat)       -- observed thread int ↦ role
   cut : Option Nat
+  lf : Option Nat := none       -- lookups from this index on fail (results deleted by a concurrent teardown: D11)
 deriving Repr, Inhabited
 
 structure Flags where
@@ -78,9 +80,13 @@ structure Ctx where
   graph : Sched.Graph Nat
   tasks : Array TaskSpec
   n : Nat
+  parentOf : Nat → Option Nat      -- observed: the thread that created an `lcc.Thread`
 
-def G.init (_c : Ctx) : G :=
-  { sched := Sched.empty, insts := Insts.empty, kept := [], reasonOf := [], running := [], defF := Flags.none,
+/-- `run_suites` sets the pre_run fixtures up before the session starts (the session only runs if all of
+    them succeeded): their results exist from the beginning -/
+def G.init (c : Ctx) : G :=
+  { sched := Sched.empty,
+    insts := { results := (preRunFixtures c.P).map (fun n => (InstKey.preRun, n)), ptObjects := [] }, kept := [], reasonOf := [], running := [], defF := Flags.none,
     startedEff := Flags.none, fired := #[], handled := 0, sessionStarted := false, sessionEnded := false, mainUser := [] }
 
 def tidOf (c : Ctx) (t : Nat) : Option TaskId := (c.tasks[t]?).map (·.id)
@@ -107,21 +113,28 @@ def setEventTid (r : Nat) : Event → Event
   | .url l s _ u d t => .url l s r u d t
   | e => e
 
-/-- model events carry model clock values; the observation carries 0: compare modulo time -/
-def zeroTime : Event → Event
-  | .sessionStart _ => .sessionStart 0 | .sessionEnd _ => .sessionEnd 0
-  | .sessionSetupStart _ => .sessionSetupStart 0 | .sessionSetupEnd _ => .sessionSetupEnd 0
-  | .sessionTeardownStart _ => .sessionTeardownStart 0 | .sessionTeardownEnd _ => .sessionTeardownEnd 0
-  | .suiteStart p m _ => .suiteStart p m 0 | .suiteEnd p _ => .suiteEnd p 0
-  | .suiteSetupStart p _ => .suiteSetupStart p 0 | .suiteSetupEnd p _ => .suiteSetupEnd p 0
-  | .suiteTeardownStart p _ => .suiteTeardownStart p 0 | .suiteTeardownEnd p _ => .suiteTeardownEnd p 0
-  | .testStart p m _ => .testStart p m 0 | .testEnd p _ => .testEnd p 0
-  | .testSkipped p m r _ => .testSkipped p m r 0 | .testDisabled p m r _ => .testDisabled p m r 0
-  | .stepStart l d tid _ => .stepStart l d tid 0 | .stepEnd l d tid _ => .stepEnd l d tid 0
-  | .log l s tid lv m _ => .log l s tid lv m 0
-  | .check l s tid d ok det _ => .check l s tid d ok det 0
-  | .attachment l s tid _ d i _ => .attachment l s tid "" d i 0      -- the counter prefix is schedule dependent
-  | .url l s tid u d _ => .url l s tid u d 0
+/-- overwrite the time an event carries -/
+def retime (n : Nat) : Event → Event
+  | .sessionStart _ => .sessionStart n | .sessionEnd _ => .sessionEnd n
+  | .sessionSetupStart _ => .sessionSetupStart n | .sessionSetupEnd _ => .sessionSetupEnd n
+  | .sessionTeardownStart _ => .sessionTeardownStart n | .sessionTeardownEnd _ => .sessionTeardownEnd n
+  | .suiteStart p m _ => .suiteStart p m n | .suiteEnd p _ => .suiteEnd p n
+  | .suiteSetupStart p _ => .suiteSetupStart p n | .suiteSetupEnd p _ => .suiteSetupEnd p n
+  | .suiteTeardownStart p _ => .suiteTeardownStart p n | .suiteTeardownEnd p _ => .suiteTeardownEnd p n
+  | .testStart p m _ => .testStart p m n | .testEnd p _ => .testEnd p n
+  | .testSkipped p m r _ => .testSkipped p m r n | .testDisabled p m r _ => .testDisabled p m r n
+  | .stepStart l d tid _ => .stepStart l d tid n | .stepEnd l d tid _ => .stepEnd l d tid n
+  | .log l s tid lv m _ => .log l s tid lv m n
+  | .check l s tid d ok det _ => .check l s tid d ok det n
+  | .attachment l s tid p d i _ => .attachment l s tid p d i n
+  | .url l s tid u d _ => .url l s tid u d n
+
+/-- model events carry model clock values and counter-prefixed attachment names; the observation carries
+    0 and the un-prefixed name: compare modulo both -/
+def zeroTime (e : Event) : Event :=
+  match retime 0 e with
+  | .attachment l s tid _ d i t => .attachment l s tid "" d i t      -- the counter prefix is schedule dependent
+  | e' => e'
 
 def normItem : Item → Item
   | .ev e => .ev (zeroTime e)
@@ -147,24 +160,66 @@ def mergeInsts (cur base new : Insts) : Insts :=
   { results := (cur.results.filter (fun x => !removedR.contains x)) ++ addedR.filter (fun x => !cur.results.contains x),
     ptObjects := (cur.ptObjects.filter (fun x => !removedP.contains x)) ++ addedP.filter (fun x => !cur.ptObjects.contains x) }
 
+/-- why `RunContext.is_task_to_be_skipped` asks to skip a task (the order of the checks is the code's) -/
+inductive SkipReason | interrupted | backendFailure | abortedSession | abortedSuite | stopOnFailure
+deriving DecidableEq, Repr, Inhabited
+
+/-- `RunContext.is_task_to_be_skipped(task)` as a function of the facts it reads -/
+def skipReason (interrupted pendingFailure abortAll suiteAborted stopOnFailure anyFailure isTest : Bool) :
+    Option SkipReason :=
+  if interrupted then some .interrupted
+  else if pendingFailure then some .backendFailure
+  else if abortAll then some .abortedSession
+  else if isTest && suiteAborted then some .abortedSuite
+  else if stopOnFailure && anyFailure then some .stopOnFailure
+  else none
+
 /-- would the context ask to skip this task, judging by flag set `f`?  (`is_task_to_be_skipped`) -/
 def ctxWouldSkip (c : Ctx) (f : Flags) (t : TaskId) : Bool :=
-  f.interrupted || f.pending || f.abortAll ||
-  (t.kind == .test && f.abortedSuites.contains (some t.path.dropLast)) ||
-  (c.P.stopOnFailure && f.failed)
+  (skipReason f.interrupted f.pending f.abortAll (f.abortedSuites.contains (some t.path.dropLast))
+    c.P.stopOnFailure f.failed (t.kind == .test)).isSome
 
 def resOfClass : ResClass → Sched.Res
   | .success => .success | .failure => .failure | .skipped => .skipped | .exception => .exception
 
 def listPrefix (pre l : List Item) : Bool := (l.take pre.length).map normItem == pre.map normItem
 
-/-- try to explain a mismatch by the keyboard interrupt: find the first API act index from which acts
-    raise, such that the recomputed output has the consumed items as prefix and the observed item next -/
-def findCut (c : Ctx) (r : Running) (obs : Item) (maxActs : Nat) : Option (Nat × TaskOut) :=
+/-- the explanations the interrupt path allows for a deviation, in increasing order of exoticness:
+    another value of `teardown_funcs` / instance state, an API act raising AbortTest from index `cut` on,
+    fixture lookups asserting from index `lf` on (results deleted by a teardown running under the task) -/
+def candidates (r : Running) (maxActs : Nat) : List (Option Nat × (List Td × Insts) × Option Nat) :=
+  let prim := (r.kept, r.instsAtStart)
+  let kis := prim :: r.altKept
+  let cutsAll : List (Option Nat) := match r.cut with
+    | some k => [some k]
+    | none => (List.range (maxActs + 1)).map some
+  let lfs : List (Option Nat) := match r.lf with
+    | some j => [some j]
+    | none => (List.range 12).map some
+  kis.map (fun ki => (r.cut, ki, r.lf)) ++
+  (if r.cut.isNone then cutsAll.map (fun c => (c, prim, r.lf)) else []) ++
+  (if r.lf.isNone then lfs.map (fun j => (r.cut, prim, j)) else []) ++
+  (if r.cut.isNone then (cutsAll.flatMap (fun c => r.altKept.map (fun ki => (c, ki, r.lf)))) else []) ++
+  (if r.cut.isNone && r.lf.isNone then
+     ((List.range 25).flatMap (fun c => (List.range 8).map (fun j => (some c, prim, some j)))) else [])
+
+/-- try to explain a mismatch by the keyboard interrupt: the recomputed output must have the consumed items
+    as prefix and the observed item next -/
+def findCut (c : Ctx) (r : Running) (obs : Item) (maxActs : Nat) :
+    Option (Option Nat × (List Td × Insts) × Option Nat × TaskOut) :=
   let consumed := r.consumed.reverse
-  (List.range (maxActs + 1)).findSome? (fun k =>
-    let out := runTask c.P r.instsAtStart r.worker r.tid r.run r.reason r.kept (some k)
-    if listPrefix (consumed ++ [obs]) out.items then some (k, out) else none)
+  (candidates r maxActs).findSome? (fun (cut, ki, lf) =>
+    let out := runTask c.P ki.2 r.worker r.tid r.run r.reason ki.1 cut lf
+    if listPrefix (consumed ++ [obs]) out.items then some (cut, ki, lf, out) else none)
+
+/-- at `finish`: the task ended although the model expected more — same search, the recomputed output must be
+    exactly what was consumed -/
+def findExact (c : Ctx) (r : Running) (maxActs : Nat) :
+    Option (Option Nat × (List Td × Insts) × Option Nat × TaskOut) :=
+  let consumed := r.consumed.reverse
+  (candidates r maxActs).findSome? (fun (cut, ki, lf) =>
+    let out := runTask c.P ki.2 r.worker r.tid r.run r.reason ki.1 cut lf
+    if out.items.map normItem == consumed.map normItem then some (cut, ki, lf, out) else none)
 
 inductive Verdict
   | ok (g : G)
@@ -192,18 +247,20 @@ def acceptItem (c : Ctx) (g : G) (th : Nat) (mk : Nat → Item) : Verdict :=
     match r.expected with
     | e :: _ =>
       if itemMatches e obs then advance r
-      else if (g.defF.interrupted) && r.cut.isNone then
-        match findCut c r obs 400 with
-        | some (k, out) =>
-          let r' := { r with cut := some k, out := out, expected := out.items.drop r.consumed.length }
+      else if g.defF.interrupted then
+        match findCut c r obs 80 with
+        | some (k, kept, lf, out) =>
+          let r' := { r with cut := k, lf := lf, kept := kept.1, instsAtStart := kept.2, out := out,
+                             expected := out.items.drop r.consumed.length }
           advance r'
         | none => advance r
       else advance r
     | [] =>
-      if g.defF.interrupted && r.cut.isNone then
-        match findCut c r obs 400 with
-        | some (k, out) =>
-          let r' := { r with cut := some k, out := out, expected := out.items.drop r.consumed.length }
+      if g.defF.interrupted then
+        match findCut c r obs 80 with
+        | some (k, kept, lf, out) =>
+          let r' := { r with cut := k, lf := lf, kept := kept.1, instsAtStart := kept.2, out := out,
+                             expected := out.items.drop r.consumed.length }
           advance r'
         | none => advance r
       else advance r
@@ -211,6 +268,9 @@ def acceptItem (c : Ctx) (g : G) (th : Nat) (mk : Nat → Item) : Verdict :=
     -- 2. an unknown thread: an `lcc.Thread` of some running task whose next expected item belongs to a
     --    role that is not bound yet
     let cand := g.running.find? (fun r =>
+      (match c.parentOf th with
+       | some p => (r.roles.lookup p).isSome
+       | none => true) &&
       match r.expected with
       | e :: _ =>
         let role := roleOfItem e
@@ -276,9 +336,27 @@ def step (c : Ctx) (g : G) : Rec → Verdict
             let kept := match setupOf tid with
               | some sid => (g.kept.lookup sid).getD []
               | none => []
+            -- after an interrupt a teardown task may start while its setup task is still running: what it
+            -- reads from `teardown_funcs` is then [] or, once the setup function has returned, the final list
+            let altKept0 : List (List Td × Insts) := match setupOf tid with
+              | some sid => (g.running.filter (fun x => x.tid == sid)).map (fun x =>
+                  (x.out.eff.kept, mergeInsts g.insts x.instsAtStart x.out.eff.insts))
+              | none => []
+            -- … and consumers may still be running (D11): the per-thread objects they have created so far are
+            -- already in the factory's list.  Alternative: everything the running tasks create is visible.
+            let allRunning : Insts := g.running.foldl (fun acc x => mergeInsts acc x.instsAtStart x.out.eff.insts) g.insts
+            -- finer: exactly the objects whose creating unit has already returned in what was observed so far
+            let soFar : Insts := g.running.foldl (fun acc x =>
+              let made := (x.out.ptLog.filter (fun p => p.1 ≤ x.consumed.length)).map (·.2)
+              { acc with ptObjects := acc.ptObjects ++ made.filter (fun o => !acc.ptObjects.contains o) }) g.insts
+            let altKept : List (List Td × Insts) :=
+              if g.defF.interrupted && (setupOf tid).isSome then
+                [(kept, soFar)] ++ altKept0 ++ [(kept, allRunning)] ++
+                  altKept0.map (fun ki => (ki.1, mergeInsts allRunning g.insts ki.2))
+              else altKept0
             let out := runTask c.P g.insts w tid run reason kept none
             let r : Running :=
-              { task := t, tid := tid, worker := w, run := run, reason := reason, ctxSkip := ctxSkip, kept := kept,
+              { task := t, tid := tid, worker := w, run := run, reason := reason, ctxSkip := ctxSkip, kept := kept, altKept := altKept,
                 instsAtStart := g.insts, out := out, consumed := [], expected := out.items, roles := [(w, 0)], cut := none }
             .ok { g with sched := s', running := r :: g.running, startedEff := mergeFlags g.startedEff out.eff }
   | .fire th e =>
@@ -288,7 +366,16 @@ def step (c : Ctx) (g : G) : Rec → Verdict
   | .finish t r =>
     match g.running.find? (fun x => x.task == t) with
     | none => .reject s!"finish {t}: task not running"
-    | some ru =>
+    | some ru0 =>
+      let ru : Running :=
+        if !ru0.expected.isEmpty && g.defF.interrupted then
+          match findExact c ru0 80 with
+          | some (k, ki, lf, out) => { ru0 with cut := k, lf := lf, kept := ki.1, instsAtStart := ki.2, out := out, expected := [] }
+          | none =>
+            -- D11: after an interrupt the teardown tasks run while tests are in flight; a fixture lookup of an
+            -- in-flight task then finds the result deleted (AssertionError outside any guard) and the task dies
+            if r == .exception then { ru0 with expected := [], out := { ru0.out with res := .exception } } else ru0
+        else ru0
       if !ru.expected.isEmpty then
         .reject s!"finish {t}: task finished but the model still expects {describeItem (ru.expected.headD default)}"
       else
